@@ -63,6 +63,18 @@ MUTANTS = {
         ('budget_ignored', r'ReceiveChannelUnreliable::new\(channel_config\.channel_id, channel_config\.max_memory_usage_bytes\)', 'ReceiveChannelUnreliable::new(channel_config.channel_id, 0)'),
         ('send_order_wrong_kind', r'channel_send_order\.push\(ChannelOrder::Reliable\(channel_config\.channel_id\)\);', 'channel_send_order.push(ChannelOrder::Unreliable(channel_config.channel_id));'),
     ],
+    'U19': [
+        ('token_reuse_check_after_full_check', r'if !self\.find_or_add_connect_token_entry\(connect_token_entry\) \{', 'if !self.find_or_add_connect_token_entry(connect_token_entry) && false {'),
+        ('expiry_off_by_one', r'if self\.current_time\.as_secs\(\) >= expire_timestamp \{', 'if self.current_time.as_secs() > expire_timestamp + 1 {'),
+        ('challenge_not_matched', r'if challenge_token\.client_id != pending\.client_id \|\| challenge_token\.user_data != pending\.user_data \{', 'if false {'),
+        ('reply_to_other_address', r'(self\.global_sequence \+= 1;\s+return Ok\(ServerResult::PacketToSend \{\s+)addr,', r'\1addr: self.public_addresses[0],'),
+        ('global_sequence_from_zero', r'global_sequence: 1 << 63,', 'global_sequence: 0,'),
+        ('session_packet_with_global_sequence', r'let len = packet\.encode\(&mut self\.out, self\.protocol_id, Some\(\(pending\.sequence, &pending\.send_key\)\)\)\?;', 'let len = packet.encode(&mut self.out, self.protocol_id, Some((self.global_sequence, &pending.send_key)))?;'),
+        ('disconnect_wrong_slot', r'let client = self\.clients\[slot\]\.take\(\)\.unwrap\(\);', 'let client = self.clients[slot].clone().unwrap();'),
+        ('timeout_comparison_flipped', r'\+ Duration::from_secs\(client\.timeout_seconds as u64\) < self\.current_time\)', '+ Duration::from_secs(client.timeout_seconds as u64) > self.current_time)'),
+        ('mac_match_last_wins_address_ignored', r'return entry\.address == new_entry\.address;', 'return true;'),
+        ('payload_counter_not_advanced', r'(Some\(\(client\.sequence, &client\.send_key\)\)\)\?;\s+)client\.sequence \+= 1;', r'\1'),
+    ],
     'U18': [
         ('horizon_shortened', r'let DISCARD_AFTER: Duration = Duration::from_secs\(3\);', 'let DISCARD_AFTER: Duration = Duration::from_secs(2);'),
         ('comparison_flipped', r'if self\.current_time - sent_packet\.sent_at >= DISCARD_AFTER \{', 'if self.current_time - sent_packet.sent_at < DISCARD_AFTER {'),
